@@ -40,6 +40,9 @@ type Spec struct {
 	// StopAt > 0: additionally apply with the same whitelist in two sessions - stop at the StopAt-th
 	// checkpoint, resume from its gob copy in a brand-new patcher (whitelist set again) and bowl
 	StopAt int `json:"stop_at,omitempty"`
+	// FalseEntries: the map handed to the patcher also has an explicit `false` entry for every file
+	// that is not selected (a caller writing wl[i] = needsPatching(i)); the selected set is the same
+	FalseEntries bool `json:"false_entries,omitempty"`
 }
 
 type recBowl struct {
@@ -153,6 +156,17 @@ func check(s Spec) h.Result {
 	}
 	var cl []string
 	cl = append(cl, "whitelist:"+s.Mode)
+	// given is the map the patcher receives, wl stays the selected set
+	given := wl
+	if s.FalseEntries {
+		given = map[int64]bool{}
+		for i := 0; i < nf; i++ {
+			given[int64(i)] = wl[int64(i)]
+		}
+		if len(given) > len(wl) {
+			cl = append(cl, "whitelist:explicit-false-entries")
+		}
+	}
 	if s.Optimize {
 		cl = append(cl, "patch:optimized")
 	}
@@ -199,7 +213,7 @@ func check(s Spec) h.Result {
 	rb := &recBowl{writers: map[int64]int{}, transp: map[int64]int{}}
 	var touched int64
 	err = h.ApplyFresh(patch, od, out, &h.ApplyOpts{
-		Whitelist: wl,
+		Whitelist: given,
 		Touched:   &touched,
 		WrapPool:  func(p lake.Pool) lake.Pool { rp.Pool = p; return rp },
 		WrapBowl:  func(b bowl.Bowl) bowl.Bowl { rb.Bowl = b; return rb },
@@ -238,7 +252,7 @@ func check(s Spec) h.Result {
 	}
 	nt := len(wl) > 0 && adjacent
 	if s.StopAt > 0 && s.Many == 0 {
-		if m := stopAndResume(s, patch, od, filepath.Join(d, "out2"), wl, wantReads, dp, want, &cl); m != "" {
+		if m := stopAndResume(s, patch, od, filepath.Join(d, "out2"), wl, given, wantReads, dp, want, &cl); m != "" {
 			return h.Result{Fail: m, Classes: cl}
 		}
 	}
@@ -268,7 +282,7 @@ func (sc *stopper) Save(c *patcher.Checkpoint) (patcher.AfterSaveAction, error) 
 
 // stopAndResume applies the patch with the whitelist in two sessions and checks the same things as the
 // one-shot application, summed over both sessions.
-func stopAndResume(s Spec, patch []byte, od, out string, wl map[int64]bool, wantReads map[int64]bool, dp *h.DecodedPatch, want h.Disk, cl *[]string) string {
+func stopAndResume(s Spec, patch []byte, od, out string, wl, given map[int64]bool, wantReads map[int64]bool, dp *h.DecodedPatch, want h.Disk, cl *[]string) string {
 	calls := map[int64]int{}
 	var touched int64
 	var ck []byte
@@ -277,7 +291,7 @@ func stopAndResume(s Spec, patch []byte, od, out string, wl map[int64]bool, want
 		if err != nil {
 			return fmt.Sprintf("patcher.New: %v", err)
 		}
-		p.SetSourceIndexWhitelist(wl)
+		p.SetSourceIndexWhitelist(given)
 		st := &stopper{stopAt: -1}
 		if session == 0 {
 			st.stopAt = s.StopAt
@@ -376,6 +390,7 @@ var prop = h.Prop[Spec]{
 		case "bits":
 			s.Bits = rapid.SliceOfN(rapid.Bool(), 1, 8).Draw(t, "bits")
 		}
+		s.FalseEntries = rapid.IntRange(0, 3).Draw(t, "false-entries") == 0
 		if rapid.IntRange(0, 2).Draw(t, "stop-and-resume") == 0 {
 			s.StopAt = rapid.IntRange(1, 4).Draw(t, "stop-at")
 			// a multi-block, multi-edit file first in the new build, so that checkpoints are offered inside it
